@@ -350,7 +350,26 @@ def reshape_helpers(ctx, rule):
               "%d facts: reshape asserts the element count and rebuilds in row-major order; flatten / get_flat / get_triple are row-major" % len(sub.obligations))
 
 
+def range_forward(ctx, rule):
+    """a loop re-runs Network::_forward over a range of layers: that walk feeds every layer the previous layer's output, for every layer
+    kind (C02's R02.5 re-run under this property)"""
+    from . import c02
+    sub = type(ctx)(ctx.prop, ctx.facts)
+    sub.guard("R02.5", "composition", c02.r5, sub)
+    bad = [o for o in sub.obligations if o["status"] != "ok"]
+    for o in bad:
+        ctx.bad(rule, "range-forward:" + o["instance"], o["key"].split("/", 3)[-1], o["where"], o["detail"])
+    ctx.check(rule, "range-forward", not bad and len(sub.obligations) >= 8, "range-forward-broken", "src/network.rs",
+              "%d facts about Network::_forward / predict" % len(sub.obligations))
+
+
+RULES["R17.6"] = "the range walk used by every loop iteration (Network::_forward) chains the layers in order for every layer kind (R02.5 re-run under this property)"
+
+
 def run(ctx):
+    ctx.guard("R17.6", "range-forward", range_forward, ctx, "R17.6")
+    from .common import accumulation_setter
+    ctx.guard("R17.2", "accumulation-setter", accumulation_setter, ctx, "R17.2")
     ctx.guard("R17.5", "reshape", reshape_helpers, ctx, "R17.5")
     r = ctx.guard("R17.1", "re-run", r1, ctx)
     if r:
